@@ -75,7 +75,7 @@ def run(ctx):
     for pi, (name, p) in enumerate(progs):
         fa = [f["name"] for f in p["funcs"] if f["module"] == "a"] + list(p.get("stmts", {}))
         mem_a = [f["name"] for f in p["funcs"] if f["module"] == "a" and f["kind"] != "plain"]
-        orders = list(itertools.permutations(fa)) if len(fa) <= 4 else [tuple(fa), tuple(reversed(fa))]
+        orders = list(itertools.permutations(fa)) if len(fa) <= 5 else [tuple(fa), tuple(reversed(fa))]
         qorders = list(itertools.permutations(mem_a))
         if not thorough:
             qorders = qorders[:2] + qorders[-1:]
